@@ -74,6 +74,22 @@ Definition set_all_pixels (p : page) (v : bool) : option page :=
                        ++ skipn (N.to_nat d) (p_bytes p) |}
   else None.
 
+(* One byte of as_bytes() after set_pixel(x, y, v), given what that byte was before ([old]; None = past the end); the
+   outer None is the bounds panic.  With it the correspondence check can look at single bytes of pages far too large to
+   list (PageP.set_pixel_byte_view_spec ties it to set_pixel). *)
+Definition set_pixel_byte_view (w h x y : N) (v : bool) (i : N) (old : option N) : option (option N) :=
+  if (x <? w) && (y <? h) then
+    Some (if i =? 4 + x * bpc h + y / 8 then
+            match old with
+            | Some b => let mask := N.shiftl 1 (y mod 8) in
+                        Some (if v then N.lor b mask else N.land b (N.lxor 255 mask))
+            | None => None
+            end
+          else old)
+  else None.
+(* byte i of a page built by from_bytes over total_bytes w h zero bytes *)
+Definition zero_bytes_view (w h i : N) : option N := if i <? total_bytes w h then Some 0 else None.
+
 Definition wf_pageb (p : page) : bool :=
   is_u32 (p_w p) && is_u32 (p_h p) && bytesb (p_bytes p)
   && (nlen (p_bytes p) =? total_bytes (p_w p) (p_h p)).
